@@ -86,7 +86,7 @@ CLAIMS["C02"] = dict(
     ref="5 C02")
 CLAIMS["C08"] = dict(
     text="Lean theorems (connection part): once the state is at or past our own FIN every Pending poll leaves the inactivity timer armed no later than one second after that poll and never extends an existing deadline; local close is absorbing under the transition table; Closed (or LastAck when the last ACK is not awaited) makes poll finish. Lockstep correspondence incl. teardown families; after Ready the harness drops the future and nothing more is emitted.",
-    note=L2NOTE + "PARTIAL: slot release and the connection limit are socket-table facts (C12/C13 model, in progress); that Rust runs the Drop guard sending Shutdown(key) when the task's future is dropped, that tokio drops a finished/cancelled task's future, and that the socket dispatcher drains its control channel are assumptions the model cannot exhibit.",
+    note=L2NOTE + "PARTIAL: slot release and the connection limit are socket-table facts (C12 theorems no_eviction / limit; exercised with real tasks by the `net` integration oracle: every table entry is released once all streams are dropped, silence afterwards); found and fixed D19 (application gone + zero window: task never ended; theorem app_gone_timer_armed); that Rust runs the Drop guard sending Shutdown(key) when the task's future is dropped, that tokio drops a finished/cancelled task's future, and that the socket dispatcher drains its control channel are assumptions the model cannot exhibit.",
     technique="Lean 4 proof (timer and transition lemmas) + lockstep correspondence",
     ref="5 C08")
 CLAIMS["C10"] = dict(
@@ -101,8 +101,8 @@ CLAIMS["C01"] = dict(
     ref="5 C01")
 
 CLAIMS["C15"] = dict(
-    text="Lean theorems over a model of cubic.rs on extended rationals (NaN, +-inf, finite) with an explicit rounding operator, for EVERY rounding operator that is monotone, idempotent and exact on integers below 2^53 (IEEE round-to-nearest is) and every cbrt: window() lies between min(2*MSS, peer window) and the peer window in every state whatsoever (NaN/inf cwnd included); for every event sequence (ack / rto / enter recovery / recovered / set_mss / set_remote_window with any numeric arguments, MSS > 0) cwnd and rwnd stay finite, non-negative and representable (invariant by induction over event lists); an RTO gives window = min(2*MSS, peer) and never increases it, entering recovery never increases it, both set ssthresh = max(0.7*cwnd, 2); zero-length ACKs change nothing. Slow-start growth <= acknowledged bytes and MSS rescale keeps the byte value are proved for exact arithmetic (rnd = id). Tie: every step of the real Cubic is compared from the implementation's own previous f64 state (bit patterns) with the model instantiated at binary64 rounding.",
-    note="Trusted: Lean kernel; that IEEE-754 binary64 +,-,*,/ satisfy `Rounding` on the normal range; model floats have unbounded exponent range (overflow/underflow of finite computations not modelled); libm pow/cbrt compared within 2^-44 relative; harness and comparator. PARTIAL: with f64 rounding the slow-start growth and MSS-rescale equalities hold only up to one byte; the real code does exceed the acknowledged bytes by one byte (known finding D15) - the oracle reports any larger excess. Found and fixed: D4 (window() above the peer window after rounding / MSS change).",
+    text="Lean theorems over a model of cubic.rs on extended rationals (NaN, +-inf, finite) with an explicit rounding operator, for EVERY rounding operator that is monotone, idempotent and exact on integers below 2^53 (IEEE round-to-nearest is) and every cbrt: window() lies between min(2*MSS, peer window) and the peer window in every state whatsoever (NaN/inf cwnd included); for every event sequence (ack / rto / enter recovery / recovered / set_mss / set_remote_window with any numeric arguments, MSS > 0) cwnd and rwnd stay finite, non-negative and representable (invariant by induction over event lists); an RTO gives window = min(2*MSS, peer) and never increases it, entering recovery never increases it, both set ssthresh = max(0.7*cwnd, 2); zero-length ACKs change nothing. Slow-start growth <= acknowledged bytes and MSS rescale keeps the byte value are proved exactly for exact arithmetic (rnd = id) and up to ONE byte for every rounding operator with relative error <= 2^-53 (the standard binary64 error model) and byte magnitudes below 2^50; the negation of the exact clause under binary64 is proved on a concrete witness (D15). Tie: every step of the real Cubic is compared from the implementation's own previous f64 state (bit patterns) with the model instantiated at binary64 rounding.",
+    note="Trusted: Lean kernel; that IEEE-754 binary64 +,-,*,/ satisfy `Rounding` on the normal range; model floats have unbounded exponent range (overflow/underflow of finite computations not modelled); libm pow/cbrt compared within 2^-44 relative; harness and comparator. PARTIAL: with f64 rounding the slow-start growth and MSS-rescale equalities hold only up to one byte (theorems slow_start_growth_within_one_byte, mss_change_rescales_within_one_byte); the real code does exceed the acknowledged bytes by one byte (known finding D15, Lean witness d15_slow_start_exceeds_by_one_byte) - the oracle reports any larger excess. That binary64 arithmetic satisfies `RoundErr` with eps = 2^-53 is assumed (IEEE-754), not proved for the executable rnd53. Found and fixed: D4 (window() above the peer window after rounding / MSS change).",
     technique="Lean 4 proof (rounding-parametric float model, invariant by induction over event lists, ordered-field lemmas) + regenerated constants + step-wise differential correspondence on f64 bit patterns",
     ref="5 C15")
 
@@ -110,7 +110,7 @@ SOCKNOTE = "Trusted: Lean kernel; constants translator; the hand-written dispatc
 
 CLAIMS["C12"] = dict(
     text="Lean theorems over every sequence of dispatcher loop iterations (acceptors, control requests, datagrams with any bytes from any address, idle wake-ups), every limit, random supply and requester liveness: the number of table entries never exceeds max_live_vsocks and keys (peer address, receive connection id) are unique (invariant by induction over event lists); every delivery made in an iteration is of the datagram just received, to the entry under (its source address, its connection id), and no other function of the dispatcher delivers; an entry (key -> connection instance) leaves the table only when that iteration processed the Shutdown request for its key or a datagram for exactly that key found the connection's task gone (no eviction by connects, SYNs, SYN-ACKs, floods or the limit); a connect beyond the limit fails with TooManyActiveConnections and changes nothing; SYN-ACKs and SYNs arriving at a full table leave it untouched.",
-    note=SOCKNOTE + "PARTIAL: that each connection's byte stream stays intact is C01 per connection plus the delivery theorem here; the composition over many real connection tasks is not mechanised. get_next_free_conn_id's loop is modelled with fuel 32768 (its termination needs fewer than 32768 same-parity keys for one address: true whenever max_live_vsocks <= 32768; beyond that the real loop would not terminate - observation, not reachable with the default 128). Observation recorded in DESIGN.md: Shutdown(key) names a key, not a connection instance, so a stale Shutdown can remove a successor connection that reused the key (needs the on_recv dead-channel removal and a reconnect with the same id to win a select! race against the pending Shutdown).",
+    note=SOCKNOTE + "PARTIAL: that each connection's byte stream stays intact is C01 per connection plus the delivery theorem here; the composition over many real connection tasks is not mechanised - it is exercised by the `net` integration component (2-3 real sockets, real dispatcher and connection tasks, scripted lossy network, per-stream tagged payload: implementation-side oracle only, no model). get_next_free_conn_id's loop is modelled with fuel 32768 (its termination needs fewer than 32768 same-parity keys for one address: true whenever max_live_vsocks <= 32768; beyond that the real loop would not terminate - observation, not reachable with the default 128). Observation recorded in DESIGN.md: Shutdown(key) names a key, not a connection instance, so a stale Shutdown can remove a successor connection that reused the key (needs the on_recv dead-channel removal and a reconnect with the same id to win a select! race against the pending Shutdown).",
     technique="Lean 4 proof (table invariant and effect classification by induction over loop fuel and event lists) + regenerated constants + lockstep correspondence of the real Dispatcher",
     ref="5 C12")
 CLAIMS["C13"] = dict(
